@@ -68,7 +68,7 @@ theorem insertRows_nodup {t rows t' : List PRow} (h : insertRows t rows = some t
     intro a ha b hb
     simp at hb; subst hb
     intro hab; subst hab
-    simp only [ysOf, List.mem_map] at ha
+    simp only [List.mem_map] at ha
     obtain ⟨r, hr, hry⟩ := ha
     apply hany
     simp only [List.any_eq_true]
@@ -98,11 +98,129 @@ theorem insertSigs_nodup {t rows t' : List BSig} (h : insertSigs t rows = some t
 
 /-! ### The invariants -/
 
+/-- Case analysis over the storage effects: after it, only the effects that really change the table
+    under consideration remain, with the equation of `execDb` split into its branches. -/
+macro "db_cases" h:ident hq:ident : tactic => `(tactic|
+  (cases ‹Eff _› <;> simp only [execDb] at $h:ident <;> (repeat' split at $h:ident) <;>
+    simp only [Option.some.injEq, Prod.mk.injEq, reduceCtorEq] at $h:ident <;>
+    (try (have hdb := And.left $h:ident; subst hdb)) <;> (try exact $hq)))
+
 /-- A row of the spent table is never removed or altered, by any storage effect. -/
 theorem spent_mono_db (row : PRow) : DbInv (fun db => row ∈ db.spent) := by
   intro β e db db' r h hq
-  cases e <;> simp only [execDb] at h <;> try (first | (cases h; exact hq) | (split at h <;> cases h <;> exact hq))
-  all_goals (try (split at h <;> (try split at h) <;> cases h <;> first | exact hq | skip))
-  all_goals sorry
+  db_cases h hq
+  exact insertRows_sub ‹_› _ hq
+
+/-- A stored blind signature is never removed or altered. -/
+theorem sigs_mono_db (row : BSig) : DbInv (fun db => row ∈ db.sigs) := by
+  intro β e db db' r h hq
+  db_cases h hq
+  exact insertSigs_sub ‹_› _ hq
+
+/-- The spent table never holds two rows for one secret. -/
+theorem spent_nodup_db : DbInv (fun db => (ysOf db.spent).Nodup) := by
+  intro β e db db' r h hq
+  db_cases h hq
+  exact insertRows_nodup ‹_› hq
+
+theorem filter_ys_nodup {t : List PRow} (p : PRow → Bool) (h : (ysOf t).Nodup) : (ysOf (t.filter p)).Nodup := by
+  unfold ysOf at *
+  exact List.Nodup.sublist (List.Sublist.map _ List.filter_sublist) h
+
+/-- The pending table never holds two rows for one secret. -/
+theorem pending_nodup_db : DbInv (fun db => (ysOf db.pending).Nodup) := by
+  intro β e db db' r h hq
+  db_cases h hq
+  · exact insertRows_nodup ‹_› hq
+  · exact filter_ys_nodup _ hq
+
+/-- No blinded message is stored with two signatures. -/
+theorem sigs_nodup_db : DbInv (fun db => (db.sigs.map (·.b)).Nodup) := by
+  intro β e db db' r h hq
+  db_cases h hq
+  exact insertSigs_nodup ‹_› hq
+
+/-- A keyset row keeps its derivation index and fee forever (only `active` may change). -/
+theorem keyset_stable_db (idx : Nat) (fee : UInt64) :
+    DbInv (fun db => ∃ k ∈ db.keysets, k.idx = idx ∧ k.fee = fee) := by
+  intro β e db db' r h hq
+  db_cases h hq
+  · obtain ⟨k, hk, h1, h2⟩ := hq
+    exact ⟨k, List.mem_append_left _ hk, h1, h2⟩
+  · obtain ⟨k, hk, h1, h2⟩ := hq
+    refine ⟨if k.idx == _ then { k with active := _ } else k, List.mem_map.2 ⟨k, hk, rfl⟩, ?_, ?_⟩ <;>
+      split <;> simp [h1, h2]
+
+/-- A mint quote is never removed and keeps its amount, invoice and lock key (only `state` may change). -/
+theorem mintQuote_stable_db (q : MintQ) :
+    DbInv (fun db => ∃ q' ∈ db.mintQ, q'.id = q.id ∧ q'.amount = q.amount ∧ q'.hash = q.hash ∧ q'.pubkey = q.pubkey) := by
+  intro β e db db' r h hq
+  db_cases h hq
+  · obtain ⟨k, hk, h1⟩ := hq
+    exact ⟨k, List.mem_append_left _ hk, h1⟩
+  · obtain ⟨k, hk, h1, h2, h3, h4⟩ := hq
+    refine ⟨if k.id == _ then { k with state := _ } else k, List.mem_map.2 ⟨k, hk, rfl⟩, ?_⟩
+    split <;> simp [h1, h2, h3, h4]
+
+/-- A melt quote is never removed and keeps its invoice, amount, fee reserve and MPP data. -/
+theorem meltQuote_stable_db (q : MeltQ) :
+    DbInv (fun db => ∃ q' ∈ db.meltQ, q'.id = q.id ∧ q'.inv = q.inv ∧ q'.amount = q.amount ∧
+      q'.feeReserve = q.feeReserve ∧ q'.isMpp = q.isMpp ∧ q'.amountMsat = q.amountMsat) := by
+  intro β e db db' r h hq
+  db_cases h hq
+  · obtain ⟨k, hk, h1⟩ := hq
+    exact ⟨k, List.mem_append_left _ hk, h1⟩
+  · obtain ⟨k, hk, h1, h2, h3, h4, h5, h6⟩ := hq
+    refine ⟨if k.id == _ then { k with state := _, preimage := _ } else k, List.mem_map.2 ⟨k, hk, rfl⟩, ?_⟩
+    split <;> simp [h1, h2, h3, h4, h5, h6]
+
+/-! ### Lifting to operations and histories -/
+
+theorem runPM_db {Q : DB → Prop} (h : DbInv Q) {α : Type} (p : PM α) (w : World) (hw : Q w.db) :
+    Q (runPM p w).1.db := EffInv.runPM (P := fun w => Q w.db) h.effInv p w hw
+
+theorem Sess.runPM_db {Q : DB → Prop} (h : DbInv Q) {α : Type} (s : Sess) (p : PM α) (script : List LnAns)
+    (hs : Q s.w.db) : Q (s.runPM p script).1.w.db := by
+  unfold Sess.runPM
+  exact EffInv.run (P := fun w => Q w.db) h.effInv _ _ hs
+
+/-- Every operation of the sequential machine preserves a storage invariant — with or without an armed
+    fault, whatever the Lightning script says. -/
+theorem applyOp_db {Q : DB → Prop} (h : DbInv Q) (s : Sess) (op : Op) (hs : Q s.w.db) : Q (applyOp s op).1.w.db := by
+  cases op <;> simp only [applyOp]
+  case extInvoice => exact hs
+  case settle => exact hs
+  case mintQuote amount unitSat pk lnFail =>
+    have := Sess.runPM_db h { s with w := { s.w with ln := { s.w.ln with failCreateInvoice := if lnFail then 1 else 0 } } }
+      (requestMintQuote (cxOf s) s.w.nextMintQ amount unitSat pk) [] hs
+    split <;> simp_all
+  case notify q =>
+    split
+    · exact Sess.runPM_db h s (watcherNotified q) [] hs
+    · exact hs
+  case quoteState q lnFail =>
+    exact Sess.runPM_db h { s with w := { s.w with ln := { s.w.ln with failInvoiceStatus := if lnFail then 1 else 0 } } } _ _ hs
+  case mint => exact Sess.runPM_db h s _ _ hs
+  case swap => exact Sess.runPM_db h s _ _ hs
+  case meltQuote inv unitSat mpp =>
+    have := Sess.runPM_db h s (requestMeltQuote (cxOf s) s.w.nextMeltQ inv (invMsat s.w.ln) unitSat mpp) [] hs
+    split <;> simp_all
+  case melt => exact Sess.runPM_db h s _ _ hs
+  case meltState => exact Sess.runPM_db h s _ _ hs
+  case checkState => exact Sess.runPM_db h s _ _ hs
+  case restore => exact Sess.runPM_db h s _ _ hs
+  case balance => exact Sess.runPM_db h s _ _ hs
+  case rotate fee => exact EffInv.run (P := fun w => Q w.db) h.effInv (rotateKeyset s.w.mem fee) _ hs
+  case restart rotate fee =>
+    split
+    · exact EffInv.run (P := fun w => Q w.db) h.effInv (rotateKeyset (memOfDb s.w.db) fee) _ hs
+    · exact hs
+  case armFault => exact hs
+  case disarm => exact hs
+
+theorem runOps_db {Q : DB → Prop} (h : DbInv Q) (s : Sess) (ops : List Op) (hs : Q s.w.db) : Q (runOps s ops).w.db := by
+  induction ops generalizing s with
+  | nil => exact hs
+  | cons op rest ih => exact ih _ (applyOp_db h s op hs)
 
 end Gonuts.Model.Mint
